@@ -309,6 +309,28 @@ def _comparators(ctx, prog, sorter):
             abs_ok = len(r2) == 1 and isinstance(r2[0], tuple) and r2[0][0] == 'call' and cname(r2[0][1]) == 'f64::abs' and \
                 isinstance(strip(r2[0][2]), tuple) and cname(strip(r2[0][2])[1]).endswith('::sub') if isinstance(strip(r2[0][2]), tuple) and strip(r2[0][2])[0] == 'call' else False
         ok = names[:3] == ['Iterator::sum', 'Iterator::map', 'Iterator::zip'] and abs_ok
+    if not ok and len(rv) == 1 and isinstance(rv[0], tuple) and rv[0][0] == 'var':
+        # accumulator form: sum = 0.0; for i in 0..6 { sum += |a[i] - b[i]| }; sum
+        defs = [d for d in dist.defs().get(rv[0][2], []) if d[4]]
+        terms = [strip(dist._def_term(d)) for d in defs]
+        zero = [t for t in terms if util.const_val(t) == 0.0]
+        acc = [t for t in terms if isinstance(t, tuple) and t[0] == 'bin' and t[1] == 'Add']
+        if len(terms) == 2 and len(zero) == 1 and len(acc) == 1:
+            a, b = strip(acc[0][2]), strip(acc[0][3])
+            if b == rv[0]:
+                a, b = b, a
+            d_ok = False
+            if a == rv[0] and isinstance(b, tuple) and b[0] == 'call' and cname(b[1]) == 'f64::abs':
+                df = strip(b[2])
+                if isinstance(df, tuple) and df[0] == 'bin' and df[1] == 'Sub':
+                    x, y = strip(df[2]), strip(df[3])
+                    if isinstance(x, tuple) and isinstance(y, tuple) and x[0] == 'idx' and y[0] == 'idx' and strip(x[2]) == strip(y[2]):
+                        ps = sorted(p for p in (util.param_index(x[1]), util.param_index(y[1])) if p)
+                        src = util.loop_source(x[2])
+                        r = util.range_of(src) if src is not None else None
+                        d_ok = ps == [1, 2] and r is not None and util.const_val(r[0]) == 0 and util.const_val(r[1]) == 6 and r[2] in ([], ['into_iter'])
+            ok = d_ok
+            found = 'accumulator: ' + show(acc[0], maxdepth=6)
     ctx.check(ok, 'R04.4', 'distance', dist.where(0), dist.path, 'the joint-space distance must be the sum over all joints of |a_i - b_i|', found=found, detail=found or '')
     for bi, t in sort_calls:
         cb, caps = util.closure_of_term(prog, sorter.op_term(t['args'][1], (bi, None)))
@@ -376,6 +398,7 @@ def _superset(ctx, prog, methods):
     for bi, t in exts:
         gs = [(strip(g), opw.truth(k)) for g, k, sw in ic.guard_terms(bi)]
         conds = [(g, v) for g, v in gs if not (isinstance(g, tuple) and g[0] == 'discr') and not (isinstance(g, tuple) and g[0] == 'bin' and 'dof' in show(g, maxdepth=4))]
-        ok = len(conds) == 1 and isinstance(conds[0][0], tuple) and conds[0][0][0] == 'call' and cname(conds[0][0][1]) == 'Vec::is_empty' and conds[0][1] is True
+        eg = util.emptiness_guard(conds[0][0], conds[0][1]) if len(conds) == 1 else None
+        ok = eg is not None and eg[1] is True
     ctx.check(ok, 'R04.6', 'unconditional-first-extend', ic.where(exts[0][0]) if exts else ic.where(0), ic.path,
               'the solutions of the unshifted solve must be taken over whenever the result is still empty (so plain-inverse answers are included)')
